@@ -9,3 +9,5 @@ pub mod multiset;
 pub mod priority_queue;
 pub mod read_only_lock;
 pub mod serde;
+#[cfg(all(kani, feature = "verif-models"))]
+pub mod verif_collections;
